@@ -186,12 +186,18 @@ func engineTB(w *World, tier string) *EngineResult {
 	r.Stats["source_call_sites"] = nSrc
 	r.Stats["sink_sites_reached"] = nSinks
 	r.Stats["sanitised_handoffs"] = nClean
+	tbGuard(c, r)
 	r.Stats["mutator_functions"] = len(c.mutators)
 	r.Stats["table_returning_functions"] = len(c.retTaint)
 	r.floor("source_call_sites", 30)
 	r.floor("mutator_functions", 10)
 	r.floor("table_returning_functions", 4)
 	r.floor("sanitised_handoffs", 4)
+	for k := range tbReviewed {
+		if _, used := r.Reviewed[k]; !used {
+			r.Notes = append(r.Notes, "reviewed entry without a matching site (stale): "+k)
+		}
+	}
 	r.finish()
 	return r
 }
@@ -263,13 +269,31 @@ func (c *tbCtx) findSanitizers() {
 		}
 		// and it must copy the nested slices (calls itself or allocates new slices)
 		deep := false
-		for _, b := range fn.Blocks {
-			for _, ins := range b.Instrs {
-				if call, isCall := ins.(*ssa.Call); isCall && call.Call.StaticCallee() == fn {
-					deep = true
+		var reachesSelf func(f *ssa.Function, depth int, seen map[*ssa.Function]bool) bool
+		reachesSelf = func(f *ssa.Function, depth int, seen map[*ssa.Function]bool) bool {
+			if seen[f] || depth > 2 {
+				return false
+			}
+			seen[f] = true
+			for _, b := range f.Blocks {
+				for _, ins := range b.Instrs {
+					call, isCall := ins.(*ssa.Call)
+					if !isCall {
+						continue
+					}
+					cal := call.Call.StaticCallee()
+					if cal == fn {
+						return true
+					}
+					// through a helper of the same package that copies the nested slices
+					if cal != nil && cal.Pkg == fn.Pkg && len(cal.Blocks) > 0 && reachesSelf(cal, depth+1, seen) {
+						return true
+					}
 				}
 			}
+			return false
 		}
+		deep = reachesSelf(fn, 0, map[*ssa.Function]bool{})
 		if ok && n > 0 && deep {
 			c.sanitizers[fn] = true
 		}
